@@ -121,6 +121,12 @@ def structural():
         for k in range(3):
             out.append((f"u{op}{k}", A.prog([], [A.func("f0", [("p0", A.UINT), ("p1", A.UINT)], INT if op in "<>==" else A.UINT,
                                                         A.block([A.ret(B(op, V("p0"), V("p1")))]), True)])))
+    # several return statements in one function: code after a return, returns in both branches, a return inside a loop
+    for tn, t, one in (("i", INT, L(1)), ("f", FLOAT, A.lit_f(3, 1))):
+        x = V("p0")
+        out.append((f"ret2{tn}", A.prog([], [A.func("f0", [("p0", t)], t, A.block([A.ret(B("+", x, one)), A.ret(x)]), True)])))
+        out.append((f"ret3{tn}", A.prog([], [A.func("f0", [("p0", t)], t, A.block([A.if_(B(">", x, one), A.block([A.ret(one), A.ret(x)]), A.block([A.ret(x)])), A.ret(B("*", x, one))]), True)])))
+        out.append((f"retloop{tn}", A.prog([], [A.func("f0", [("p0", t)], t, A.block([A.decl("i", INT, L(0)), A.while_(B("<", V("i"), L(3)), A.block([A.if_(B(">", x, one), A.block([A.ret(x)])), A.estmt(A.asg(V("i"), B("+", V("i"), L(1))))])), A.ret(one)]), True)])))
     for n, e in [(0, 0), (1, 0), (1, 1), (3, 2), (255, 3), (1, 10), (16777215, 0)]:
         out.append((f"fc{n}_{e}", A.prog([], [A.func("f0", [("p0", FLOAT)], FLOAT, A.block([A.ret(B("+", V("p0"), A.lit_f(n, e)))]), True)])))
     return out
